@@ -405,7 +405,7 @@ pub struct DetCase {
 }
 
 pub fn det_s() -> BoxedStrategy<DetCase> {
-    let general = proptest::collection::vec((any::<u16>(), 0u8..14), 0..7);
+    let general = proptest::collection::vec((any::<u16>(), 0u8..15), 0..7);
     // only uses of a macro whose body holds several jumps, all to undefined labels: every jump of one use is recorded
     // at the position of that use, so the order among them is not decided by the position
     let multi = proptest::collection::vec((any::<u16>(), 11u8..14), 1..3);
@@ -431,13 +431,29 @@ pub fn det_source(c: &DetCase) -> String {
             11 => format!("jq2(undef_a{}, undef_b{})", k, k),
             12 => format!("jq2(undef_z{}, undef_a{})", k, k),
             13 => format!("jq3(undef_c{}, undef_a{}, undef_b{})", k, k, k),
+            // no exact 'start' but several labels that spell it in another case (handled after the loop)
+            14 => "nop".to_string(),
             6 => format!("dup_{}: nop\ndup_{}: nop", k, k),
             _ => "mov ax, 70000".to_string(),
         };
         // top level only (a label definition may not be valid inside every context)
         lines.insert(at.min(lines.len()), stmt);
     }
-    if c.errors.iter().any(|(_, k)| *k >= 8) {
+    if c.errors.iter().any(|(_, k)| *k == 14) {
+        // start: -> START: and a second variant further down
+        for l in lines.iter_mut() {
+            if l.trim() == "start:" {
+                *l = "START:".to_string();
+            }
+        }
+        lines.push("Start:".to_string());
+        lines.push("mov dl, 35".to_string());
+        lines.push("mov ah, 2".to_string());
+        lines.push("int 0x21".to_string());
+        lines.push("sTART:".to_string());
+        lines.push("print reg".to_string());
+    }
+    if c.errors.iter().any(|(_, k)| *k >= 8 && *k <= 13) {
         lines.insert(first_code, "macro jq9(t) -> jmp t <-".to_string());
         lines.insert(first_code, "macro jq2(a,b) -> jo a jmp b <-".to_string());
         lines.insert(first_code, "macro jq3(a,b,c) -> jc a jz b loop c <-".to_string());
@@ -474,8 +490,8 @@ pub fn eval_det(c: &DetCase) -> CaseOutcome {
             };
         }
     }
-    let n_und = c.errors.iter().filter(|(_, k)| *k <= 4 || *k >= 8).count();
-    let n_mac = c.errors.iter().filter(|(_, k)| *k >= 8).count();
+    let n_und = c.errors.iter().filter(|(_, k)| *k <= 4 || (*k >= 8 && *k <= 13)).count();
+    let n_mac = c.errors.iter().filter(|(_, k)| *k >= 8 && *k <= 13).count();
     let mut classes = vec!["c19/determinism".to_string()];
     if c.errors.len() >= 2 {
         classes.push("c19/determinism-several-errors".into());
@@ -486,7 +502,10 @@ pub fn eval_det(c: &DetCase) -> CaseOutcome {
     if n_mac >= 2 && first.out_str().contains("used but not defined") {
         classes.push("c19/determinism-several-undefined-labels-from-one-macro".into());
     }
-    if c.errors.iter().any(|(_, k)| *k >= 11) && c.errors.iter().all(|(_, k)| *k <= 4 || *k >= 8) && first.out_str().contains("used but not defined") {
+    if c.errors.iter().any(|(_, k)| *k == 14) {
+        classes.push("c19/determinism-start-in-other-case-only".into());
+    }
+    if c.errors.iter().any(|(_, k)| *k >= 11 && *k <= 13) && c.errors.iter().all(|(_, k)| *k <= 4 || (*k >= 8 && *k <= 13)) && first.out_str().contains("used but not defined") {
         classes.push("c19/determinism-several-undefined-labels-from-one-macro-use".into());
     }
     if c.errors.is_empty() {
